@@ -729,3 +729,56 @@ func oddCorpus(tier string) []tplSpec {
 	}
 	return out
 }
+
+// nsCorpus: lines whose interest is the namespace-bearing positions.
+func nsCorpus(tier string) []tplSpec {
+	g := &gen{names: map[string]bool{}}
+	mk := func(env envelope, cmdText string) string {
+		f := &filler{}
+		return f.fill(env.wrap(cmdText), "str")
+	}
+	verbs := []string{"find", "aggregate", "insert", "update", "delete", "count", "findAndModify", "findOneAndDelete", "findOneAndReplace", "findOneAndUpdate", "replace", "getIndexes", "countDocuments", "distinct"}
+	for i, v := range verbs {
+		tags := []string{"ns"}
+		if i%3 == 0 {
+			tags = append(tags, "quick")
+		}
+		g.add("ns:verb/"+v, mk(envelopes[0], `{"`+v+`":"<<COLL:coll>>","filter":{"%G":%S},"$db":"<<DB:db>>","lsid":{"id":{"$uuid":"0b3c1f2a"}}}`), tags...)
+	}
+	for _, env := range envelopes[1:] {
+		g.add("ns:env/"+env.name, mk(env, `{"find":"<<COLL:coll>>","filter":{"%G":%S},"$db":"<<DB:db>>"}`), "ns", "quick")
+	}
+	g.add("ns:getMore", mk(envelopes[0], `{"getMore":{"$numberLong":"7731234"},"collection":"<<COLL:coll>>","batchSize":100,"$db":"<<DB:db>>"}`), "ns", "quick")
+	// lines without a command document, other components with attr.ns
+	g.add("ns:cmd-only", `{"t":{"$date":"2024-05-01T10:00:00.123+00:00"},"s":"I","c":"COMMAND","id":51803,"ctx":"conn42","msg":"Slow query","attr":{"type":"command","ns":"<<DB:db>>.<<COLL:coll>>","cmd":{"find":"<<COLL:coll>>","filter":{"<<G:g1>>":"<<S:s1>>"},"$db":"<<DB:db>>"},"durationMillis":12}}`, "ns", "quick")
+	g.add("ns:no-command", `{"t":{"$date":"2024-05-01T10:00:00.123+00:00"},"s":"I","c":"COMMAND","id":51803,"ctx":"conn42","msg":"Slow query","attr":{"type":"command","ns":"<<DB:db>>.<<COLL:coll>>","durationMillis":12}}`, "ns", "quick")
+	g.add("ns:other-component", `{"t":{"$date":"2024-05-01T10:00:00.123+00:00"},"s":"I","c":"INDEX","id":20345,"ctx":"conn42","msg":"Index build: done building","attr":{"buildUUID":null,"ns":"<<DB:db>>.<<COLL:coll>>","index":"a_1","commitTimestamp":null}}`, "ns", "quick")
+	g.add("ns:other-component-storage", `{"t":{"$date":"2024-05-01T10:00:00.123+00:00"},"s":"I","c":"STORAGE","id":20320,"ctx":"conn42","msg":"createCollection","attr":{"namespace":"x","ns":"<<DB:db>>.<<COLL:coll>>","uuidDisposition":"generated"}}`, "ns")
+	stages := []struct{ name, text string }{
+		{"lookup", `{"$lookup":{"from":"%C","localField":"%G","foreignField":"%G","as":"%G"}}`},
+		{"lookup-pipeline", `{"$lookup":{"from":"%C","pipeline":[{"$lookup":{"from":"%C","localField":"%G","foreignField":"%G","as":"%G"}}],"as":"%G"}}`},
+		{"graphLookup", `{"$graphLookup":{"from":"%C","startWith":"$%G","connectFromField":"%G","connectToField":"%G","as":"%G"}}`},
+		{"unionWith-doc", `{"$unionWith":{"coll":"%C","pipeline":[{"$match":{"%G":%S}}]}}`},
+		{"unionWith-str", `{"$unionWith":"%C"}`},
+		{"unionWith-nested", `{"$unionWith":{"coll":"%C","pipeline":[{"$unionWith":{"coll":"%C","pipeline":[]}}]}}`},
+		{"merge-str", `{"$merge":{"into":"%C","whenMatched":"replace"}}`},
+		{"merge-doc", `{"$merge":{"into":{"db":"<<DB:d2>>","coll":"%C"},"on":"_id"}}`},
+		{"merge-short", `{"$merge":"%C"}`},
+		{"out-str", `{"$out":"%C"}`},
+		{"out-doc", `{"$out":{"db":"<<DB:d2>>","coll":"%C"}}`},
+		{"facet-lookup", `{"$facet":{"%G":[{"$lookup":{"from":"%C","localField":"%G","foreignField":"%G","as":"%G"}}]}}`},
+	}
+	for _, st := range stages {
+		g.add("ns:stage/"+st.name, mk(envelopes[0], aggCmd(st.text)), "ns", "quick")
+	}
+	g.add("ns:stage-orig/lookup", mk(envelopes[4], aggCmd(stages[0].text)), "ns")
+	g.add("ns:stage-errcmd/unionWith", mk(envelopes[5], aggCmd(stages[3].text)), "ns")
+	var out []tplSpec
+	for _, t := range g.out {
+		if tier == "quick" && !t.Tags["quick"] {
+			continue
+		}
+		out = append(out, t)
+	}
+	return out
+}
